@@ -70,12 +70,15 @@ class SymH:
         out = out.view(symnp.SymArray)
         return out
 
-    def angle(self, wname):
+    def angle(self, wname, full=False):
         """A first-quadrant angle in (0, pi/2) given by its half-angle tangent w in (0,1) (declared as a parameter):
-        cos = (1-w^2)/(1+w^2), sin = 2w/(1+w^2); np.cos/np.sin of it are rational in w."""
+        cos = (1-w^2)/(1+w^2), sin = 2w/(1+w^2); np.cos/np.sin of it are rational in w.
+        full=True: w ranges over all reals, the angle 2 atan(w) over (-pi, pi) (every direction except pi)."""
         w = self.ctx.gens[wname]
         den = 1 + w * w
         a = core.new_angle(self.ctx, (1 - w * w) / den, 2 * w / den)
+        if full:
+            return a
         k = a.as_k()
         for n, kk in self.ctx.derived.items():
             pass
